@@ -116,3 +116,12 @@ pub struct UdtOrderedNoNames {
     pub a: i32,
     pub b: String,
 }
+
+#[derive(SerializeValue, DeserializeValue)]
+#[scylla(flavor = "enforce_order")]
+pub struct UdtOrderedDefaults {
+    pub a: i32,
+    #[scylla(allow_missing, default_when_null)]
+    pub b: i64,
+    pub c: Option<i32>,
+}
